@@ -2809,6 +2809,16 @@ def h_fmt_via_clone(ctx, p):
     ctx.req('LISTING', shared or val_eq_z(p.z, v1, p.self0), nm, 'formatting must not advance or change the iterator itself', p)
 
 
+def h_algebra_clone(ctx, p):
+    """Clone of a lazy set-algebra iterator: the copy equals the original (same operands, same cursors), so it
+    yields exactly what the original still would; the original stays as it is"""
+    ctx.classes['made'] += 1
+    ok = p.val is not None and p.self0 is not None and val_eq_z(p.z, p.val, p.self0)
+    ctx.req('OUT', ok, 'clone', 'a cloned lazy set iterator must equal its original: same operands, same cursors '
+            '(copy %s, original %s)' % (str(p.val)[:200], str(p.self0)[:200]), p)
+    ctx.req('OUT', val_eq_z(p.z, final_self(p), p.self0), 'clone', 'cloning must not advance or change the original', p)
+
+
 # get_disjoint: every answer written into the result array is the value of a slot whose key matched that request
 AGREE_TRACK = {
     (MAP, None, 'get_disjoint_mut'): {'C13'},
@@ -3305,6 +3315,11 @@ HANDLERS.update({
     (SYMDIFF, 'Iterator', 'size_hint'): ({'C08'}, h_merge_hint),
     (SYMDIFF, 'Iterator', 'fold'): ({'C08'}, h_merge_fold),
     (SYMDIFF, 'Iterator', 'count'): ({'C08'}, h_merge_count),
+    (DIFF, 'Clone', 'clone'): ({'C08'}, h_algebra_clone),
+    (DIFFREF, 'Clone', 'clone'): ({'C08'}, h_algebra_clone),
+    (INTER, 'Clone', 'clone'): ({'C08'}, h_algebra_clone),
+    (UNION, 'Clone', 'clone'): ({'C08'}, h_algebra_clone),
+    (SYMDIFF, 'Clone', 'clone'): ({'C08'}, h_algebra_clone),
     (MAP, None, 'len'): ({'C05', 'C01'}, h_len),
     (SET, None, 'len'): ({'C05', 'C07'}, h_len),
     (MAP, None, 'is_empty'): ({'C05'}, h_is_empty),
@@ -3459,6 +3474,7 @@ for _k, (_how, _ord) in FMT_ROOTS.items():
 for _path in (DIFF, DIFFREF, INTER, UNION, SYMDIFF):
     HANDLERS[(_path, 'Debug', 'fmt')] = ({'C19'}, h_fmt_via_clone)
     CLASSES[(_path, 'Debug', 'fmt')] = {'rendered-clone'}
+    CLASSES[(_path, 'Clone', 'clone')] = {'made'}
 
 UNWIND_HANDLERS.update({
     (ENT, None, 'or_insert_with'): ({'C11'}, u_or_insert('with')),
